@@ -243,6 +243,20 @@ def diff_idx(a, b):
     return [i for i, (x, y) in enumerate(zip(a, b)) if x != y]
 
 
+def kept_check():
+    """Objects created earlier in the history and kept by the caller: re-parsed now (no keywords), they must give what a fresh
+    object with the same text and the same settings gives under the process state of *now*.  -> (got, want) of the first mismatch"""
+    for k in list(keep):
+        if isinstance(k, _p.PLSSDesc):
+            k.parse()
+            got = [(t.trs, t.desc) for t in k.tracts]
+            f = _p.PLSSDesc(k.orig_desc, config=k.config.decompile_to_text() or None)
+            want = [(t.trs, t.desc) for t in f.tracts]
+            if got != want or k.pp_desc != f.pp_desc:
+                return [got, k.pp_desc], [want, f.pp_desc]
+    return None
+
+
 def run_history(acc, seq, ref):
     key = ','.join(NAMES[i] for i in seq)
     case = {'history': [NAMES[i] for i in seq]}
@@ -254,8 +268,10 @@ def run_history(acc, seq, ref):
         MC = _p.MasterConfig
         now = f"{MC.default_ns}{MC.default_ew}"
         got = c15_probe.probe(_p)
+        kept_bad = kept_check()
         MC.default_ns, MC.default_ew = 'n', 'w'
         got_restored = c15_probe.probe(_p)
+        kept_bad = kept_bad or kept_check()
     except Exception as ex:  # noqa
         acc.case(key, 'EXC', nontrivial=bool(seq))
         acc.violation('exception', f"C15:exception:{key}", case, got=f"{type(ex).__name__}: {ex}")
@@ -266,7 +282,11 @@ def run_history(acc, seq, ref):
     acc.case(key, jdump(gs), nontrivial=bool(seq))
     acc.transitions += max(1, len(seq))
     want = ref[now]
-    if got != want:
+    if kept_bad:
+        acc.violation('kept_object_depends_on_history', f"C15:kept_object_depends_on_history:{key}", case, got=kept_bad[0], exp=kept_bad[1],
+                      note='an object created earlier in the history, re-parsed now without keywords, differs from a fresh object with the '
+                           'same text and settings')
+    elif got != want:
         idx = diff_idx(got, want)
         acc.violation('history_dependent_result', f"C15:history_dependent_result:{key}", case,
                       got=[got[i] for i in idx[:2]] if idx != ['len'] else len(got),
